@@ -187,7 +187,7 @@ def gen_i64(rng, n):
     return out
 
 
-def f64_boundary_bits():
+def f64_boundary_bits(quick=False):
     b = set()
     specials = [0x0000000000000000, 0x0000000000000001, 0x0000000000000002, 0x000fffffffffffff, 0x0010000000000000,
                 0x0010000000000001, 0x7fefffffffffffff, 0x7feffffffffffffe, 0x7ff0000000000000, 0x7ff0000000000001,
@@ -200,8 +200,9 @@ def f64_boundary_bits():
         b.add(s | (1 << 63))
     for e in range(0, 2047):                       # every binade: 2^k and its 1-ulp neighbours
         base = e << 52
-        for d in (0, 1, (1 << 52) - 1, 1 << 51, (1 << 51) + 1):
-            for s in (0, 1 << 63):
+        full = not quick or e % 16 == 0 or e < 4 or e > 2042 or 1020 <= e <= 1080
+        for d in ((0, 1, (1 << 52) - 1, 1 << 51, (1 << 51) + 1) if full else (0, (1 << 52) - 1)):
+            for s in ((0, 1 << 63) if full else (0,)):
                 b.add(base | d | s)
     for k in range(-330, 310):                     # nearest doubles of 10^k and neighbours
         try:
@@ -227,7 +228,11 @@ def f64_boundary_bits():
 
 def f32_boundary_bits():
     b = set()
-    specials = [0x00000000, 0x00000001, 0x007fffff, 0x00800000, 0x00800001, 0x7f7fffff, 0x7f7ffffe, 0x7f800000,
+    # 0x15ae43fd = 7.038531e-26: the one f32 magnitude whose shortest f32 digits, read as f64, land
+    # exactly on an f32 midpoint (found by an exhaustive scan of all 2^32 patterns; the writer used
+    # to print those digits and the value came back as 0x15ae43fe — repaired by fix 11c4ed2, which
+    # writes the exactly widened f64).  Permanent cases: the defect is reported if it returns.
+    specials = [0x15ae43fd, 0x15ae43fc, 0x15ae43fe, 0x00000000, 0x00000001, 0x007fffff, 0x00800000, 0x00800001, 0x7f7fffff, 0x7f7ffffe, 0x7f800000,
                 0x7f800001, 0x7fc00000, 0x7fc00001, 0x7fffffff, 0x7fa00000, 0x3f800000, 0x3f800001, 0x3f7fffff,
                 0x4b000000, 0x4b800000, 0x4b7fffff, 0x4affffff, 0x3dcccccd, 0x3f000000, 0x40490fdb, 0x4f000000, 0x5f000000]
     for s in specials:
@@ -248,8 +253,8 @@ def f32_boundary_bits():
     return sorted(b)
 
 
-def gen_f64_bits(rng, n):
-    out = [(b, "f64-boundary") for b in f64_boundary_bits()]
+def gen_f64_bits(rng, n, quick=False):
+    out = [(b, "f64-boundary") for b in f64_boundary_bits(quick)]
     for _ in range(n):
         r = rng.random()
         if r < 0.45:                                # uniform over bit patterns
@@ -300,10 +305,10 @@ def gen_f32_bits(rng, n):
     return out
 
 
-def float_cases(rng, n64, n32):
+def float_cases(rng, n64, n32, quick=False):
     """two phases: ask the implementation side for std's `{}` text of every pattern (the model
     cannot run std's printer), then build the real cases `f64w <bits> <std text>`."""
-    p64 = gen_f64_bits(rng, n64)
+    p64 = gen_f64_bits(rng, n64, quick)
     p32 = gen_f32_bits(rng, n32)
     lines = ["f64print " + common.hexarg(b"%016x" % b) for b, _ in p64] + \
             ["f32print " + common.hexarg(b"%08x" % b) for b, _ in p32]
@@ -498,7 +503,7 @@ def gen_cases(rng, tier):
     q = tier == "quick"
     out = []
     out += gen_i64(rng, 20000 if q else 400000)
-    out += float_cases(rng, 30000 if q else 800000, 12000 if q else 300000)
+    out += float_cases(rng, 30000 if q else 800000, 12000 if q else 300000, quick=q)
     out += gen_int_literals(rng, 8000 if q else 200000)
     out += gen_float_literals(rng, 8000 if q else 200000)
     out += gen_serde(rng, 150 if q else 3000)
@@ -530,9 +535,8 @@ def check_std_text(case):
         return "std `{}` text %r is not [-]digits[.digits]" % std
     if (b"." in std) == (x == int(x)) and x != 0:
         return "std `{}` text %r: fractional part present iff value integral" % std
+    # f32: the writer widens first, so std's text is that of the (exactly) widened f64
     y = float(std.decode())
-    if not is64:
-        y = struct.unpack("<f", struct.pack("<f", y))[0]
     if y != x or (std.startswith(b"-") != (b >> (63 if is64 else 31) == 1)):
         return "std `{}` text %r does not read back as the same float" % std
     return None
@@ -612,12 +616,23 @@ def nontrivial(case, line):
     return True
 
 
+DECH = re.compile(r"f:dech:(-?)([0-9a-f]+)e(-?\d+)")
+
+
+def model_norm(line):
+    """`f:dech:<hex m>e<e>` (exact decimal m*10^e, mantissa in hex) -> `f:bits:` via floatnorm"""
+    if line is None or "f:dech:" not in line:
+        return line
+    line = DECH.sub(lambda m: "f:dec:%s%de%s" % (m.group(1), int(m.group(2), 16), m.group(3)), line)
+    return floatnorm.norm(line)
+
+
 def compare(case, model_line, impl_line):
     il = impl_line
     if case.cmd in ("f64w", "f32w"):
         # `rt=` needs the final binary rounding, which the model leaves to the differ
         il = re.sub(r" rt=\w+$", "", il)
-    if floatnorm.norm(model_line) == il:
+    if model_norm(model_line) == il:
         return None
     return "model and implementation differ"
 
